@@ -91,6 +91,9 @@ pub struct AllocCfg {
     pub seed: u64,
     /// run-level exhaustion: every request after this many successful ones fails
     pub exhaust_after: Option<u32>,
+    /// hand out physical frame 0 first (when it lies in a table zone)
+    #[serde(default)]
+    pub frame0_first: bool,
 }
 
 #[derive(Clone, Debug, PartialEq, Eq, Serialize, Deserialize)]
@@ -116,6 +119,9 @@ pub struct Config {
     /// data memory (everything outside the table zones) reads as zero instead of garbage
     #[serde(default)]
     pub zero_data: bool,
+    /// stale memory holds no word with bit 0 set (see PhysMem::even_garbage)
+    #[serde(default)]
+    pub even_garbage: bool,
 }
 
 #[derive(Clone, Debug, PartialEq, Eq, Serialize, Deserialize)]
